@@ -8,7 +8,7 @@ Likelihood.get_pred).  Every negloglike is verified under all variants.
 """
 import z3
 from pyvc.engine import Contract
-from pyvc.values import (T, VFloat, VFn, VRef, VTuple, HObj, HSeq, Fn, Unsupported, fresh_name,
+from pyvc.values import (T, VFloat, VFn, VRef, VTuple, VLabel, Label, HObj, HSeq, Fn, Unsupported, fresh_name,
                          fadd, fsub, fmul, fdiv, flog, fsqrt, fsame, as_float, LN, SQRT)
 from pyvc import models as M
 
@@ -238,4 +238,59 @@ def base_get_pred_verify_contract(variant):
 def cc_get_pred_verify_contract(variant, cls):
     c = cc_get_pred_contract(variant, cls)
     c.setup = lambda eng, st, args: setattr(eng, "opaque_call", opaque_call_for(variant))
+    return c
+
+
+# ------------------------------------------------------------------ CCLikelihood / MockLikelihood: what the constructor leaves in the data vectors (C09)
+def _init_region(fnode):
+    """from `self.Hfid = ...` to the assignment of self.inv_cov (the call of the base constructor before it builds paths only and is not part of the region)"""
+    import ast
+    a = b = None
+    for k, s in enumerate(fnode.body):
+        if a is None and isinstance(s, ast.Assign) and ast.unparse(s.targets[0]) == "self.Hfid":
+            a = k
+        if isinstance(s, ast.Assign) and ast.unparse(s.targets[0]) == "self.inv_cov":
+            b = k
+    return fnode.body[a:b + 1] if a is not None and b is not None and b > a else None
+
+
+def init_contract(cls):
+    """The class invariant the negloglike contracts of CCLikelihood / MockLikelihood assume is established here: with (X, Y, E) the three columns of the data file,
+    xvar = X + 1, yvar = Y / Hfid, yerr = E / Hfid, Hfid = 1, and inv_cov[k] * yerr[k]**2 = 1 for every row with a finite non-zero error (inv_cov = 1 / yerr**2
+    elementwise, nothing reordered, all four vectors of the file's length)."""
+    N = z3.Int("nrows")
+    COL = [z3.Function("file.col%d" % c, z3.IntSort(), z3.RealSort()) for c in range(3)]
+
+    def m_genfromtxt(eng, st, args, kwargs, node):
+        if "unpack" not in kwargs:
+            raise Unsupported("np.genfromtxt without unpack=True")
+        cols = [st.alloc(HSeq(N, (lambda k, c=c: VFloat(COL[c](k))), numpy=True, etype=T.real)) for c in range(3)]
+        return VTuple(cols)
+
+    def mk_self(eng, st):
+        return st.alloc(HObj(cls, {"data_file": VLabel(z3.Const("self.data_file", Label))}))
+
+    def setup(eng, st, args):
+        eng.models["np.genfromtxt"] = m_genfromtxt
+        st.assume(N >= 1)
+
+    def ensures(S, a, res):
+        o = S.st.heap[a["self"].addr]
+        need = ("xvar", "yvar", "yerr", "inv_cov", "Hfid")
+        if any(f not in o.fields for f in need):
+            return [("the constructor sets xvar, yvar, yerr, inv_cov and Hfid", z3.BoolVal(False))]
+        k = z3.Int(fresh_name("k!sk"))
+        inr = z3.And(0 <= k, k < N)
+        g = lambda nm: as_float(S.get(o.fields[nm], k))
+        L = lambda nm: S.len(o.fields[nm])
+        hf = as_float(o.fields["Hfid"])
+        return [("the four data vectors have one entry per row of the file", z3.And(L("xvar") == N, L("yvar") == N, L("yerr") == N, L("inv_cov") == N)),
+                ("Hfid = 1", z3.And(hf.is_fin(), hf.val == 1)),
+                ("row k: xvar = first column + 1, yvar = second column, yerr = third column (Hfid = 1), in file order",
+                 z3.Implies(inr, z3.And(g("xvar").is_fin(), g("xvar").val == COL[0](k) + 1, g("yvar").is_fin(), g("yvar").val == COL[1](k), g("yerr").is_fin(), g("yerr").val == COL[2](k)))),
+                ("row k: inv_cov * yerr**2 = 1 whenever the error is not zero (the invariant the likelihood contracts assume)",
+                 z3.Implies(z3.And(inr, COL[2](k) != 0), z3.And(g("inv_cov").is_fin(), g("inv_cov").val * COL[2](k) * COL[2](k) == 1)))]
+
+    c = Contract(cls + ".__init__", {"self": mk_self}, ensures=ensures, setup=setup, region=_init_region, raises=lambda S, a, e: z3.BoolVal(False))
+    c.region_name = "data vectors"
     return c
